@@ -181,8 +181,8 @@ struct Scope {
     arrays: Vec<(String, Ty, i64, i64)>,
     /// struct variables of type Pt
     structs: Vec<String>,
-    /// user FB instances: (name, fb index)
-    fbs: Vec<(String, usize)>,
+    /// user FB instances: (name, fb index, declares EN/ENO)
+    fbs: Vec<(String, usize, bool)>,
     /// standard FB instances: (name, kind)
     std_fbs: Vec<(String, &'static str)>,
     /// callable functions (index < current function index)
@@ -271,6 +271,11 @@ impl<'a> Gen<'a> {
                 None => format!("{}", self.r.range(lo, hi)),
             },
             1 => format!("({} MOD {}) + {}", self.expr(sc, Ty::DInt, depth + 1), hi - lo + 1, lo),
+            2 if self.r.chance(1, 3) => match sc.vars.iter().chain(sc.ro.iter()).find(|v| v.ty == Ty::LInt) {
+                // a LINT index straight from a variable/input: may be anywhere in the i64 range
+                Some(v) => v.name.clone(),
+                None => format!("{}", self.r.range(lo, hi)),
+            },
             _ => format!("{}", self.r.range(lo, hi)),
         }
     }
@@ -425,10 +430,24 @@ impl<'a> Gen<'a> {
                 if sc.fbs.is_empty() {
                     return ";".into();
                 }
-                let (name, _) = sc.fbs[self.r.below(sc.fbs.len() as u64) as usize].clone();
-                let call = match self.r.below(6) {
+                let (name, _, has_en) = sc.fbs[self.r.below(sc.fbs.len() as u64) as usize].clone();
+                let bvar = sc.vars.iter().find(|v| v.ty == Ty::Bool).map(|v| v.name.clone());
+                let dvar = sc.vars.iter().find(|v| v.ty == Ty::DInt).map(|v| v.name.clone());
+                let call = match self.r.below(8) {
                     0 => format!("{name}();"),
                     1 => format!("{name}(x := {});", self.expr(sc, Ty::DInt, 1)),
+                    2 | 3 if has_en => {
+                        // EN may be FALSE at run time: the body is skipped, ENO driven FALSE, outputs still bound
+                        let mut args = format!("EN := {}, x := {}, go := {}", self.expr(sc, Ty::Bool, 1), self.expr(sc, Ty::DInt, 1), self.expr(sc, Ty::Bool, 1));
+                        if let Some(b) = &bvar {
+                            args.push_str(&format!(", ENO => {b}"));
+                        }
+                        if let (Some(d), true) = (&dvar, self.r.bool()) {
+                            args.push_str(&format!(", y => {d}"));
+                        }
+                        format!("{name}({args});")
+                    }
+                    4 if dvar.is_some() => format!("{name}(x := {}, go := {}, y => {});", self.expr(sc, Ty::DInt, 1), self.expr(sc, Ty::Bool, 1), dvar.clone().unwrap_or_default()),
                     _ => format!("{name}(x := {}, go := {});", self.expr(sc, Ty::DInt, 1), self.expr(sc, Ty::Bool, 1)),
                 };
                 match sc.vars.iter().find(|v| v.ty == Ty::DInt) {
@@ -631,9 +650,13 @@ pub fn gen_project(r: &mut Rng, knobs: Knobs, size: (usize, usize, usize)) -> Js
         pous.push(json!({"kind": "function", "name": name, "header": header, "stmts": stmts, "footer": format!("{name} := res;\nEND_FUNCTION\n")}));
         funcs.push(FuncSig { name, ret, params });
     }
+    let mut fb_en: Vec<bool> = vec![];
     for bi in 0..n_fbs {
         let name = format!("Fb{bi}");
-        let mut header = format!("FUNCTION_BLOCK {name}\nVAR_INPUT\n  x : DINT;\n  go : BOOL;\nEND_VAR\nVAR_OUTPUT\n  y : DINT;\nEND_VAR\nVAR\n");
+        let has_en = g.r.chance(1, 2);
+        fb_en.push(has_en);
+        let (en_in, eno_out) = if has_en { ("  EN : BOOL;\n", "  ENO : BOOL;\n") } else { ("", "") };
+        let mut header = format!("FUNCTION_BLOCK {name}\nVAR_INPUT\n{en_in}  x : DINT;\n  go : BOOL;\nEND_VAR\nVAR_OUTPUT\n{eno_out}  y : DINT;\nEND_VAR\nVAR\n");
         let (vars, text) = { let n_ = g.r.usize(1, 4); decl_vars(&mut g, "m", n_, true) };
         header.push_str(&text);
         header.push_str("  k0 : DINT;\n  k1 : INT;\n  tm : TON;\nEND_VAR\n");
@@ -649,7 +672,18 @@ pub fn gen_project(r: &mut Rng, knobs: Knobs, size: (usize, usize, usize)) -> Js
         let stmts: Vec<String> = (0..n).map(|_| g.stmt(&mut sc, 0)).collect();
         pous.push(json!({"kind": "fb", "name": name, "header": header, "stmts": stmts, "footer": "END_FUNCTION_BLOCK\n"}));
     }
-    let mut config = String::from("CONFIGURATION C\nVAR_GLOBAL\n  g_sel : DINT := 0;\n  g_a : DINT := 1;\n  g_b : INT := INT#2;\n  g_f : BOOL;\nEND_VAR\n");
+    let mut config = String::from("CONFIGURATION C\nVAR_GLOBAL\n  g_sel : DINT := 0;\n  g_a : DINT := 1;\n  g_b : INT := INT#2;\n  g_f : BOOL;\n");
+    // globals whose type appears nowhere else (length-limited strings, arrays, dates)
+    if g.r.bool() {
+        config.push_str(&format!("  g_label : STRING[{}] := 'ab';\n", g.r.range(3, 40)));
+    }
+    if g.r.chance(1, 3) {
+        config.push_str(&format!("  g_wide : WSTRING[{}];\n  g_day : DATE := D#2024-02-29;\n", g.r.range(2, 20)));
+    }
+    if g.r.chance(1, 3) {
+        config.push_str(&format!("  g_tab : ARRAY[{}..{}] OF LREAL;\n", g.r.range(-3, 0), g.r.range(1, 6)));
+    }
+    config.push_str("END_VAR\n");
     let two_tasks = n_progs >= 2 && g.r.bool();
     config.push_str("TASK TA (INTERVAL := T#10ms, PRIORITY := 1);\n");
     if two_tasks {
@@ -684,7 +718,7 @@ pub fn gen_project(r: &mut Rng, knobs: Knobs, size: (usize, usize, usize)) -> Js
         for bi in 0..n_fbs {
             if g.r.bool() {
                 header.push_str(&format!("  fb{bi} : Fb{bi};\n"));
-                sc.fbs.push((format!("fb{bi}"), bi));
+                sc.fbs.push((format!("fb{bi}"), bi, fb_en[bi]));
             }
         }
         for (si, kind) in ["TON", "TP", "CTU", "R_TRIG", "SR", "TOF"].iter().enumerate() {
